@@ -90,13 +90,23 @@ void r_add_silence_alt(void)
         for (int j = 0; j < NST; j++) {
             SSW_ASSUME(in_present[i * NST + j] == 0 || in_present[i * NST + j] == 1);
             SSW_ASSUME(in_logp[i * NST + j] <= 0 && in_logp[i * NST + j] >= -1000 && (in_wid[i * NST + j] == 0 || in_wid[i * NST + j] == 1));
+#ifdef ALL_PRESENT
+            /* structure concrete: every arc present, label (from state) mod 2; only the probabilities stay symbolic */
+            SSW_ASSUME(in_present[i * NST + j] == 1 && in_wid[i * NST + j] == i % 2);
+#endif
             if (in_present[i * NST + j]) fsg_model_trans_add(fsg, i, j, in_logp[i * NST + j], in_wid[i * NST + j]);
         }
     SSW_ASSUME(0 <= in_q && in_q < NST * NST && (in_mode == 0 || in_mode == 1));
+#ifdef MODE
+    SSW_ASSUME(in_mode == MODE);
+#endif
+#ifdef QPAIR
+    SSW_ASSUME(in_q == QPAIR);
+#endif
     int qi = in_q / NST, qj = in_q % NST;
     /* count arcs of the witness pair by label */
 #define COUNT(var, lab, prob) do { var = 0; prob = NEGINF; int guard_ = 0; for (gnode_t *gn_ = fsg_model_trans(fsg, qi, qj); gn_ && guard_ < 8; gn_ = gnode_next(gn_), guard_++) { \
-        fsg_link_t *fl_ = gnode_ptr(gn_); if (fl_->wid == (lab)) { var++; prob = fl_->logs2prob; } } } while (0)
+        fsg_link_t *fl_ = gnode_ptr(gn_); SSW_ASSERT(fl_->from_state == qi && fl_->to_state == qj, "every arc filed under (from, to) has those endpoints"); if (fl_->wid == (lab)) { var++; prob = fl_->logs2prob; } } } while (0)
     int c_before, p_before, c_after, p_after, c_new, p_new;
     if (in_mode == 0) {
         fsg->lmath = NULL;
